@@ -613,6 +613,24 @@ def _settles_before_success(f, from_eid, pred):
     return True
 
 
+def _res_positive(ats):
+    """`res >= 0` together with `res != 0` (what `if (res < 0) ...; else if (res != 0)` leaves) is res > 0."""
+    lo, ne = None, set()
+    for a in ats:
+        if a.R is None or a.R.const is None or a.L.locals != {"res"} or a.L.fields or a.L.calls:
+            continue
+        c = a.R.const
+        if a.rel == ">=":
+            lo = c if lo is None else max(lo, c)
+        elif a.rel == ">":
+            lo = c + 1 if lo is None else max(lo, c + 1)
+        elif a.rel == "!=":
+            ne.add(c)
+    while lo is not None and lo in ne:
+        lo += 1
+    return lo is not None and lo >= 1
+
+
 def _publish_only_frames(ctx, run, f):
     run.touch(f)
     n = 0
@@ -629,7 +647,8 @@ def _publish_only_frames(ctx, run, f):
         n += 1
         ats = atoms.atoms_at(f, i)
         ok = any(a.rel == ">" and a.R is not None and a.R.const == 0 and "res" in a.L.locals for a in ats) or \
-            any(a.rel == ">=" and a.R is not None and a.R.const == 1 and "res" in a.L.locals for a in ats)
+            any(a.rel == ">=" and a.R is not None and a.R.const == 1 and "res" in a.L.locals for a in ats) or \
+            _res_positive(ats)
         key = "RF-DOM:vbi_proxyd_forward_data:publish-needs-frame"
         if ok:
             run.holds("RF-DOM", key, "`%s` is dominated by res > 0" % ex.pretty(f, i)[:40], ex.loc(f, i))
@@ -827,7 +846,11 @@ def _full_frame_admitted(ctx, run):
         e = f.exprs[i]
         if e["k"] != "call" or e.get("callee") != "__assert_fail":
             continue
-        for a in atoms.atoms_at(f, i):
+        # the assertion's own condition: the innermost branch in front of the __assert_fail call (an assertion further
+        # down is dominated by the *success* of this one, which is not its failure condition)
+        de = flow.dominating_edges(f, bid)
+        own = atoms.atoms_of(f, de[0][2], de[0][1] == "T", de[0][0], de[0][1]) if de and de[0][2] is not None and de[0][1] in ("T", "F") else []
+        for a in own:
             if a.R is None or a.R.const is not None:
                 continue
             lc = a.L.has("PROXY_QUEUE.line_count") or a.L.has("PROXY_QUEUE_s.line_count") or "line_count" in a.L.text
